@@ -42,10 +42,14 @@ return backend.to_device(output, device)
 def check(run, M, tier):
     run.rule("W1", "get_wavelet_shape / fwt / iwt equal their documented forms: one (wave_name, axes, level), mode='zero' at wavedecn and waverecn, axes at wavedecn, coeffs_to_array, waverecn")
     run.rule("W2", "even padding ((i+1)//2)*2 in helper and fwt, centred util.resize for pad and crop; InverseWavelet keeps the helper's coefficient slices for its own (oshape, wave_name, axes, level) and hands them to iwt")
+    from .. import vn as _vn
+    _vn.INT_IDENTITIES = True   # every arithmetic term in these functions is an array size
+    run.assume("array sizes are integers: (n + 1)//2*2 and n + n % 2 are the same even padding")
     run.assume("PyWavelets: orthogonal families have orthonormal filters; wavedecn/waverecn with mode='zero' on even lengths are mutually adjoint")
     cmp_ref(run, M, "W1", "sigpy.wavelet.get_wavelet_shape", REF_SHAPE, hook=None)
     cmp_ref(run, M, "W1", "sigpy.wavelet.fwt", REF_FWT, hook=None)
     cmp_ref(run, M, "W1", "sigpy.wavelet.iwt", REF_IWT, hook=None)
+    _vn.INT_IDENTITIES = False
     # defaults agree at all sites
     want = {"wave_name": "db4", "axes": None, "level": None}
     for q in ("sigpy.wavelet.get_wavelet_shape", "sigpy.wavelet.fwt", "sigpy.wavelet.iwt", "sigpy.linop.Wavelet.__init__", "sigpy.linop.InverseWavelet.__init__"):
